@@ -276,8 +276,8 @@ func (g *G) realSet3() int {
 	if ss != 1 {
 		g.Stat("real3 sets far from unit scale", 1)
 	}
-	var collH, collB, collM model3d.Collider
-	var shB *shape
+	var collH, collB, collN, collM model3d.Collider
+	var shB, shN *shape
 	idx := map[*model3d.Triangle]int{}
 	pan := guard(func() {
 		model3d.GroupTriangles(tris)
@@ -291,6 +291,12 @@ func (g *G) realSet3() int {
 			bvh := model3d.NewBVHAreaDensity(in)
 			shB = shapeOfBVH3(bvh, func(t *model3d.BVH[*model3d.Triangle]) bool { return t.Leaf != nil }, idx)
 			collB = model3d.BVHToCollider(bvh)
+			// a hand-made BVH over the same triangles (any order, branches with 2 … 5 or more children)
+			shN = g.randNaryShape(g.Rng.Perm(n))
+			collN = model3d.BVHToCollider(bvhOfShape3(shN, func(i int) *model3d.Triangle { return tris[i] }))
+			if shN.maxWidth() > 2 {
+				g.Stat("real3 BVHToCollider branch-with-more-than-2-children", 1)
+			}
 		}
 		collM = model3d.MeshToCollider(model3d.NewMeshTriangles(tris))
 	})
@@ -313,6 +319,20 @@ func (g *G) realSet3() int {
 	shH := &shape{k: 'H', ids: seq(n)}
 	aim := g.aimBoxes(3, bs0)
 	emitted := 0
+	// answers are values: the slices returned by TriangleCollisions are kept and read again after all later
+	// queries on the same colliders
+	var keptSegs, keptCopies [][]model3d.Segment
+	defer func() {
+		for i, ss := range keptSegs {
+			for j, s := range ss {
+				if segBits3(s) != segBits3(keptCopies[i][j]) {
+					g.PropFail("prop:c08 tri-answer-changed-after-later-queries",
+						fmt.Sprintf("TriangleCollisions answer %d of a set of %d triangles: segment %d read %v when returned and %v after later queries", i, n, j, keptCopies[i][j], s))
+					return
+				}
+			}
+		}
+	}()
 	for _, kind := range kinds3 {
 		if g.p(0.4) {
 			continue
@@ -349,8 +369,8 @@ func (g *G) realSet3() int {
 		for _, hs := range []struct {
 			coll model3d.Collider
 			sh   *shape
-		}{{collH, shH}, {collB, shB}} {
-			if hs.sh == nil || (hs.sh == shB && n > 33 && g.p(0.5)) {
+		}{{collH, shH}, {collB, shB}, {collN, shN}} {
+			if hs.sh == nil || (hs.sh != shH && n > 33 && g.p(0.5)) {
 				continue
 			}
 			order := hs.sh.leaves()
@@ -363,7 +383,11 @@ func (g *G) realSet3() int {
 					}
 					return 999999
 				},
-				segs: func(ss []model3d.Segment) []int { return matchSegs(order, lsegs, ss) },
+				segs: func(ss []model3d.Segment) []int {
+					keptSegs = append(keptSegs, ss)
+					keptCopies = append(keptCopies, append([]model3d.Segment{}, ss...))
+					return matchSegs(order, lsegs, ss)
+				},
 			}
 			res := run3(hs.coll, q, cv)
 			g.emitHier("j3", 3, q, false, true, bs, ans, hs.sh, res, nil)
@@ -431,8 +455,8 @@ func (g *G) realSet2() int {
 	if ss != 1 {
 		g.Stat("real2 sets far from unit scale", 1)
 	}
-	var collH, collB, collM model2d.Collider
-	var shB *shape
+	var collH, collB, collN, collM model2d.Collider
+	var shB, shN *shape
 	idx := map[*model2d.Segment]int{}
 	pan := guard(func() {
 		model2d.GroupSegments(segs)
@@ -446,6 +470,11 @@ func (g *G) realSet2() int {
 			bvh := model2d.NewBVHAreaDensity(in)
 			shB = shapeOfBVH2(bvh, func(t *model2d.BVH[*model2d.Segment]) bool { return t.Leaf != nil }, idx)
 			collB = model2d.BVHToCollider(bvh)
+			shN = g.randNaryShape(g.Rng.Perm(n))
+			collN = model2d.BVHToCollider(bvhOfShape2(shN, func(i int) *model2d.Segment { return segs[i] }))
+			if shN.maxWidth() > 2 {
+				g.Stat("real2 BVHToCollider branch-with-more-than-2-children", 1)
+			}
 		}
 		collM = model2d.MeshToCollider(model2d.NewMeshSegments(segs))
 	})
@@ -494,8 +523,8 @@ func (g *G) realSet2() int {
 		for _, hs := range []struct {
 			coll model2d.Collider
 			sh   *shape
-		}{{collH, shH}, {collB, shB}} {
-			if hs.sh == nil || (hs.sh == shB && n > 33 && g.p(0.5)) {
+		}{{collH, shH}, {collB, shB}, {collN, shN}} {
+			if hs.sh == nil || (hs.sh != shH && n > 33 && g.p(0.5)) {
 				continue
 			}
 			res := run2(hs.coll, q, tag)
